@@ -6,6 +6,7 @@ import (
 	"errors"
 	"fmt"
 	"io"
+	"math"
 	"net"
 	"os"
 	"os/signal"
@@ -61,10 +62,16 @@ type CanAcceptFunc func() bool
 
 // SendFailure lets the client know that executing the command failed and the error
 func SendFailure(t *tubes.Reliable, err error) {
-	msg := make([]byte, 5+len(err.Error()))
+	text := err.Error()
+	// The length field is 16 bits wide: a longer text is cut, so that the
+	// announced length always matches the bytes that follow.
+	if len(text) > math.MaxUint16 {
+		text = text[:math.MaxUint16]
+	}
+	msg := make([]byte, 5+len(text))
 	msg[0] = execFail
-	binary.BigEndian.PutUint16(msg[1:], uint16(len(err.Error())))
-	copy(msg[5:], []byte(err.Error()))
+	binary.BigEndian.PutUint16(msg[1:], uint16(len(text)))
+	copy(msg[5:], []byte(text))
 	t.Write(msg)
 }
 
